@@ -20,9 +20,9 @@ theorem getNosec_none {nm : NosecMap} {range : List Nat} (h : NoNosecOn nm range
 with the context's location. -/
 theorem emit_plain {nm : NosecMap} {ctx : Ctx} {raw : Raw} {l c : Nat}
     (hn : NoNosecOn nm ctx.linerange) (hraw : raw.lineno = none) (hcol : raw.col = none)
-    (hl : ctx.lineno = some l) (hc : ctx.col = some c) :
+    (hl : ctx.lineno = some l) (hc : ctx.col = some c) (hrange : raw.range = none := by rfl) :
     emit nm ctx raw = .ok (.finding ⟨raw.id, raw.sev, raw.conf, l, ctx.linerange, c⟩) := by
-  simp [emit, nosecsFor, hraw, hcol, hl, hc, getNosec_none hn, bind, Except.bind, pure, Except.pure]
+  simp [emit, nosecsFor, hraw, hcol, hl, hc, hrange, getNosec_none hn, bind, Except.bind, pure, Except.pure]
 
 theorem isKind_of_kind {n : Node} {k : String} (h : n.kind = k.toList) : n.isKind k = true := by
   simp [Node.isKind, h]
